@@ -23,21 +23,37 @@ def assert_repo(repo):
         raise RuntimeError(f"reamber imported from {f}, not from {repo}")
 
 
-def generate_all(repo):
+def files_of(modname):
+    """names of the Generated files a translator module writes (read from its source: `return {"X.lean": ...}`)"""
+    import re
+    import translators
+    src = open(os.path.join(translators.__path__[0], modname + ".py"), encoding="utf-8").read()
+    return sorted(set(re.findall(r'return \{\s*"(\w+\.lean)"', src)))
+
+
+def generate_all(repo, errors=None):
+    """runs every translator; a translator that cannot read the source any more is recorded in `errors`
+    ({module: (message, [files it writes])}) and leaves its Generated file as it is - it must not take the other
+    properties' translators down with it"""
     assert_repo(repo)
     import translators
     out = {}
     for m in sorted(pkgutil.iter_modules(translators.__path__), key=lambda m: m.name):
-        mod = importlib.import_module(f"translators.{m.name}")
-        for fn, text in mod.generate(repo).items():
-            out[fn] = text
+        try:
+            mod = importlib.import_module(f"translators.{m.name}")
+            for fn, text in mod.generate(repo).items():
+                out[fn] = text
+        except Exception as e:  # noqa: BLE001
+            if errors is None:
+                raise
+            errors[m.name] = (f"{type(e).__name__}: {e}", files_of(m.name))
     return out
 
 
-def write_generated(repo, outdir):
+def write_generated(repo, outdir, errors=None):
     os.makedirs(outdir, exist_ok=True)
     changed = []
-    for fn, text in generate_all(repo).items():
+    for fn, text in generate_all(repo, errors).items():
         p = os.path.join(outdir, fn)
         old = open(p, encoding="utf-8").read() if os.path.exists(p) else None
         if old != text:
